@@ -25,6 +25,8 @@ def bounds(tier):
                        "(so duplicates and both orders occur), names: empty, 2 symbolic bytes, a latin-1 name whose bytes are "
                        "valid UTF-8, a name with two separators; the locator runs on a live AsyncTasks manager whose tidy "
                        "pass falls inside the run",
+            "handlers": "event handlers that return at once; in the slow-handler units (<= 2 replies) handlers that suspend for "
+                        "0.12 s or 0.3 s - listing and clean-up clauses only",
             "filters": "none / identifier / address / identifier of a spa that never answers"}
 
 
@@ -39,7 +41,7 @@ SPAS = [(b"SPA01:02:03:04:05:06", ("10.0.0.1", 10022)), (b"SPA0a:0b:0c:0d:0e:0f"
 SLOTS = [0, 2, 4, None]
 
 
-def discover(maxreplies):
+def discover(maxreplies, slow=False):
     def scenario(sx):
         import asyncio
         from sx.vloop import VLoop, patched_time
@@ -79,8 +81,14 @@ def discover(maxreplies):
                 GeckoConfig.TASK_TIDY_FREQUENCY_IN_SECONDS = 0.15      # a tidy pass falls inside the run
                 events = []
 
+                # slow variant: the application's event handler really suspends (0.12 or 0.3 s, longer than a poll),
+                # so that the end of the run can fall while a helper task is inside it
+                delay = [0.12, 0.3][sx.choice("handler_delay", 2)] if slow else 0.0
+
                 async def ev(e, **k):
                     events.append((e, k))
+                    if delay:
+                        await asyncio.sleep(delay)
                 loc = GeckoAsyncLocator(tm, ev, **kw)
                 arrivals = []
 
@@ -133,7 +141,7 @@ def discover(maxreplies):
                 sx.check(len(set(ids)) == len(ids), "dsc.each-spa-listed-once", lambda: str(ids))
                 if want is not None:
                     sx.check(all(i == want for i in ids), "dsc.only-the-requested-identifier", lambda: str(ids))
-                early = [e for e in exp if any(a[0] + (len(arrivals) + 1) * POLL <= t_end for a in arrivals if SPAS[a[1]][0] == e[0])]
+                early = [] if slow else [e for e in exp if any(a[0] + (len(arrivals) + 1) * POLL <= t_end for a in arrivals if SPAS[a[1]][0] == e[0])]
                 for ident, name, addr in early:
                     sx.check(ident in ids, "dsc.answering-spa-is-listed", lambda: f"{ident} missing from {ids}")
                 for (ident, nm, dest) in listed:
@@ -146,9 +154,12 @@ def discover(maxreplies):
                         sx.check(nm == ref, "dsc.name-intact", lambda: f"{nm!r} vs {ref!r}")
                 # ---- timing
                 eps = 1e-9
-                sx.check(t_end <= TIMEOUT + POLL + eps, "dsc.returns-within-the-timeout", lambda: str(t_end))
                 specific = mode in (1, 2, 3)
-                if specific:
+                if not slow:
+                    sx.check(t_end <= TIMEOUT + POLL + eps, "dsc.returns-within-the-timeout", lambda: str(t_end))
+                if slow:
+                    pass          # (the timing clauses are decided with handlers that return at once)
+                elif specific:
                     hits = [t for (t, who, name) in arrivals
                             if (mode == 2 or SPAS[who][0] == want)]
                     if mode == 2:
@@ -211,4 +222,6 @@ def units(tier):
     n = 2 if q else 3
     for f in range(4):
         yield Unit(f"discover.filter{f}", discover(n), presets={"filter": f}, max_paths=200000)
+    for f in range(4):
+        yield Unit(f"discover.slow-handler.filter{f}", discover(2, slow=True), presets={"filter": f}, max_paths=200000)
     yield Unit("threaded-dedup", threaded_dedup)
